@@ -683,7 +683,7 @@ func SelfTest() error {
 // WalkChunks follows the aws-chunked framing of body the way a decoder does (size field up to ';' or CRLF,
 // then that many data bytes, then CRLF) and returns the concatenated data and how the walk ended:
 // "final" (zero-length chunk seen), "inside-chunk" (a declared chunk reaches or passes the end of the body:
-// the stream ends inside, or exactly at the end of, a chunk's data), "at-boundary" (the body ends after a
+// the stream ends inside, or exactly at the end of, a chunk's data, or inside its CRLF), "at-boundary" (the body ends after a
 // complete chunk, no zero-length chunk), "malformed".
 func WalkChunks(body []byte) (data []byte, end string) {
 	i := 0
@@ -702,8 +702,13 @@ func WalkChunks(body []byte) (data []byte, end string) {
 		if n == 0 {
 			return data, "final"
 		}
-		if uint64(len(body)-i) <= n {
-			return append(data, body[i:]...), "inside-chunk"
+		if uint64(len(body)-i) < n+2 {
+			// the body ends inside the chunk's data or inside its terminating CRLF
+			e := len(body)
+			if uint64(len(body)-i) > n {
+				e = i + int(n)
+			}
+			return append(data, body[i:e]...), "inside-chunk"
 		}
 		data = append(data, body[i:i+int(n)]...)
 		i += int(n) + 2
